@@ -508,8 +508,16 @@ xds_decoder(vbi_decoder *vbi, int _class, int type,
 				sum |= 1UL << 30;
 
 				if (sum != n->nuid) {
-					if (n->nuid != 0)
+					if (n->nuid != 0) {
+						/* vbi_chsw_reset() locks cc.mutex in
+						   vbi_caption_channel_switched() and
+						   may call event handlers. */
+						pthread_mutex_unlock(&vbi->cc.mutex);
+
 						vbi_chsw_reset(vbi, sum);
+
+						pthread_mutex_lock(&vbi->cc.mutex);
+					}
 
 					n->nuid = sum;
 
@@ -716,7 +724,13 @@ itv_separator(vbi_decoder *vbi, struct caption *cc, char c)
 
 	ITV_DEBUG(printf("ITV: <%s>\n", cc->itv_buf));
 
+	/* May call VBI_EVENT_TRIGGER handlers, which are permitted
+	   to call vbi_fetch_cc_page(), see caption_send_event(). */
+	pthread_mutex_unlock(&vbi->cc.mutex);
+
 	vbi_atvef_trigger(vbi, cc->itv_buf);
+
+	pthread_mutex_lock(&vbi->cc.mutex);
 }
 
 /*
@@ -1443,6 +1457,9 @@ vbi_caption_channel_switched(vbi_decoder *vbi)
 	cc_channel *ch;
 	int i;
 
+	/* vbi_fetch_cc_page() may run in another thread. */
+	pthread_mutex_lock(&cc->mutex);
+
 	for (i = 0; i < 9; i++) {
 		ch = &cc->channel[i];
 
@@ -1484,6 +1501,8 @@ vbi_caption_channel_switched(vbi_decoder *vbi)
 	cc->info_cycle[1] = 0;
 
 	vbi_caption_desync(vbi);
+
+	pthread_mutex_unlock(&cc->mutex);
 }
 
 static vbi_rgba
